@@ -2,7 +2,7 @@
 //! that id's name (prefixed with the role of the file: main / sup / dwo / dwp); every field
 //! of every loading API must hold the bytes of its own id (or of the documented source).
 
-use super::super::{endian, guarded, Rd};
+use super::super::{ceq, cfail, endian, guarded, Rd};
 use crate::gen::index::*;
 use crate::model::index::*;
 use crate::rt::{hex, Ctx};
@@ -142,11 +142,11 @@ fn check_dwarf_fields<'a>(ctx: &mut Ctx, sig: &str, d: &gimli::Dwarf<Rd<'a>>, wa
     for (name, id, got) in dwarf_fields(d) {
         let w = want(id).to_vec();
         if w != got {
-            ctx.check_eq(&format!("{sig}.{name}"), &String::from_utf8_lossy(&w).to_string(), &String::from_utf8_lossy(&got).to_string(), input);
+            ceq(ctx, &format!("{sig}.{name}"), &String::from_utf8_lossy(&w).to_string(), &String::from_utf8_lossy(&got).to_string(), input);
         }
     }
     for b in loc_probe(d, want(SectionId::DebugLoc), want(SectionId::DebugLocLists)) {
-        ctx.fail(&format!("{sig}.locations"), &b, input);
+        cfail(ctx, &format!("{sig}.locations"), &b, input);
     }
     // every buffer is found under its own id by Dwarf::lookup_offset_id (the ids that
     // function consults)
@@ -163,7 +163,7 @@ fn check_dwarf_fields<'a>(ctx: &mut Ctx, sig: &str, d: &gimli::Dwarf<Rd<'a>>, wa
         // the same buffer may legitimately be referenced from the supplementary file too,
         // but the main file is searched first
         if got != Some((false, id, 1)) {
-            ctx.check_eq(&format!("{sig}.lookup_offset_id"), &Some((false, id, 1usize)), &got, input);
+            ceq(ctx, &format!("{sig}.lookup_offset_id"), &Some((false, id, 1usize)), &got, input);
         }
     }
 }
@@ -176,7 +176,7 @@ fn check_owned_dwarf(ctx: &mut Ctx, sig: &str, d: &gimli::Dwarf<Vec<u8>>, m: &Ma
             let want = format!("{:?}", gimli::$ty::from(m.vec(SectionId::$id)));
             let got = format!("{:?}", d.$field);
             if want != got {
-                ctx.check_eq(&format!("{}.{}", sig, stringify!($field)), &want, &got, input);
+                ceq(ctx, &format!("{}.{}", sig, stringify!($field)), &want, &got, input);
             }
         };
     }
@@ -195,12 +195,12 @@ fn check_owned_dwarf(ctx: &mut Ctx, sig: &str, d: &gimli::Dwarf<Vec<u8>>, m: &Ma
     let want = format!("{:?}", gimli::LocationLists::new(gimli::DebugLoc::from(m.vec(SectionId::DebugLoc)), gimli::DebugLocLists::from(m.vec(SectionId::DebugLocLists))));
     let got = format!("{:?}", d.locations);
     if want != got {
-        ctx.check_eq(&format!("{sig}.locations"), &want, &got, input);
+        ceq(ctx, &format!("{sig}.locations"), &want, &got, input);
     }
     let want = format!("{:?}", gimli::RangeLists::new(gimli::DebugRanges::from(m.vec(SectionId::DebugRanges)), gimli::DebugRngLists::from(m.vec(SectionId::DebugRngLists))));
     let got = format!("{:?}", d.ranges);
     if want != got {
-        ctx.check_eq(&format!("{sig}.ranges"), &want, &got, input);
+        ceq(ctx, &format!("{sig}.ranges"), &want, &got, input);
     }
 }
 
@@ -210,7 +210,7 @@ fn check_owned_sections(ctx: &mut Ctx, sig: &str, d: &gimli::DwarfSections<Vec<u
             let want = format!("{:?}", gimli::$ty::from(m.vec(SectionId::$id)));
             let got = format!("{:?}", d.$field);
             if want != got {
-                ctx.check_eq(&format!("{}.{}", sig, stringify!($field)), &want, &got, input);
+                ceq(ctx, &format!("{}.{}", sig, stringify!($field)), &want, &got, input);
             }
         };
     }
@@ -238,7 +238,7 @@ fn asked_ok(ctx: &mut Ctx, sig: &str, m: &Markers, expect: &[SectionId], input: 
     let mut want: Vec<&'static str> = expect.iter().map(|i| i.name()).collect();
     asked.sort();
     want.sort();
-    ctx.check_eq(&format!("{sig}.requested_ids"), &want, &asked, input);
+    ceq(ctx, &format!("{sig}.requested_ids"), &want, &asked, input);
     m.asked.borrow_mut().clear();
 }
 
@@ -320,15 +320,15 @@ fn check_package<'a>(
     for (name, id, got) in fields {
         let w = m.vec(id);
         if w != got {
-            ctx.check_eq(&format!("{sig}.{name}"), &String::from_utf8_lossy(&w).to_string(), &String::from_utf8_lossy(&got).to_string(), input);
+            ceq(ctx, &format!("{sig}.{name}"), &String::from_utf8_lossy(&w).to_string(), &String::from_utf8_lossy(&got).to_string(), input);
         }
     }
-    ctx.check_eq(&format!("{sig}.empty"), &0usize, &dwp.empty.len(), input);
+    ceq(ctx, &format!("{sig}.empty"), &0usize, &dwp.empty.len(), input);
     // the two indexes are told apart by the only key each holds
-    ctx.check_eq(&format!("{sig}.cu_index.find(own)"), &Some(1), &dwp.cu_index.find(cu.0), input);
-    ctx.check_eq(&format!("{sig}.cu_index.find(other)"), &None, &dwp.cu_index.find(tu.0), input);
-    ctx.check_eq(&format!("{sig}.tu_index.find(own)"), &Some(1), &dwp.tu_index.find(tu.0), input);
-    ctx.check_eq(&format!("{sig}.tu_index.find(other)"), &None, &dwp.tu_index.find(cu.0), input);
+    ceq(ctx, &format!("{sig}.cu_index.find(own)"), &Some(1), &dwp.cu_index.find(cu.0), input);
+    ceq(ctx, &format!("{sig}.cu_index.find(other)"), &None, &dwp.cu_index.find(tu.0), input);
+    ceq(ctx, &format!("{sig}.tu_index.find(own)"), &Some(1), &dwp.tu_index.find(tu.0), input);
+    ceq(ctx, &format!("{sig}.tu_index.find(other)"), &None, &dwp.tu_index.find(cu.0), input);
     // unit sections: windows of the package's own sections, plus the parent's parts
     for (which, model, id) in [("cu_sections", &cu.1, cu.0), ("tu_sections", &tu.1, tu.0)] {
         ctx.obs(&format!("plumb.{which}"));
@@ -336,7 +336,7 @@ fn check_package<'a>(
         let d = match res {
             Ok(Some(d)) => d,
             other => {
-                ctx.fail(&format!("{sig}.{which}.find"), &format!("marker unit not found: {:?}", other.map(|o| o.is_some())), input);
+                cfail(ctx, &format!("{sig}.{which}.find"), &format!("marker unit not found: {:?}", other.map(|o| o.is_some())), input);
                 continue;
             }
         };
@@ -362,7 +362,7 @@ fn check_package<'a>(
         for (name, sid, got) in dwarf_fields(&d) {
             let w = windows.get(sid.name()).cloned().unwrap_or_default();
             if w != got {
-                ctx.check_eq(&format!("{sig}.{which}.{name}"), &String::from_utf8_lossy(&w).to_string(), &String::from_utf8_lossy(&got).to_string(), input);
+                ceq(ctx, &format!("{sig}.{which}.{name}"), &String::from_utf8_lossy(&w).to_string(), &String::from_utf8_lossy(&got).to_string(), input);
             }
         }
         // location sections through pointer identity + length
@@ -371,19 +371,19 @@ fn check_package<'a>(
             let enc = gimli::Encoding { format: gimli::Format::Dwarf32, version, address_size: 4 };
             let ok_at_len = d.locations.raw_locations(gimli::LocationListsOffset(s as usize), enc).is_ok();
             let err_past = d.locations.raw_locations(gimli::LocationListsOffset(s as usize + 1), enc).is_err();
-            ctx.check_eq(&format!("{sig}.{which}.locations.{}.len", sid.name()), &(true, true), &(ok_at_len, err_past), input);
+            ceq(ctx, &format!("{sig}.{which}.locations.{}.len", sid.name()), &(true, true), &(ok_at_len, err_past), input);
             if s >= 2 {
                 let base = m.get(sid).as_ptr() as u64 + o as u64;
                 let got = d.locations.lookup_offset_id(gimli::ReaderOffsetId(base + 1));
-                ctx.check_eq(&format!("{sig}.{which}.locations.{}.window", sid.name()), &Some((sid, 1usize)), &got, input);
+                ceq(ctx, &format!("{sig}.{which}.locations.{}.window", sid.name()), &Some((sid, 1usize)), &got, input);
                 let before = d.locations.lookup_offset_id(gimli::ReaderOffsetId(base - 1));
-                ctx.check_eq(&format!("{sig}.{which}.locations.{}.before", sid.name()), &None, &before, input);
+                ceq(ctx, &format!("{sig}.{which}.locations.{}.before", sid.name()), &None, &before, input);
             }
         }
-        ctx.check_eq(&format!("{sig}.{which}.file_type"), &true, &(d.file_type == gimli::DwarfFileType::Dwo), input);
+        ceq(ctx, &format!("{sig}.{which}.file_type"), &true, &(d.file_type == gimli::DwarfFileType::Dwo), input);
         // the supplementary file is the parent's
         let sup_str = d.sup().map(|s| s.debug_str.reader().slice().to_vec());
-        ctx.check_eq(&format!("{sig}.{which}.sup"), &Some(sup.vec(SectionId::DebugStr)), &sup_str, input);
+        ceq(ctx, &format!("{sig}.{which}.sup"), &Some(sup.vec(SectionId::DebugStr)), &sup_str, input);
     }
 }
 
@@ -409,8 +409,8 @@ pub fn plumb_stream(ctx: &mut Ctx) {
             ctx.obs("plumb.Dwarf::load");
             asked_ok(ctx, "Dwarf::load", &main, &DWARF_IDS, &input);
             check_dwarf_fields(ctx, "Dwarf::load", &d, &|id| main.get(id), &input);
-            ctx.check_eq("Dwarf::load.file_type", &true, &(d.file_type == gimli::DwarfFileType::Main), &input);
-            ctx.check_eq("Dwarf::load.sup", &true, &d.sup().is_none(), &input);
+            ceq(ctx, "Dwarf::load.file_type", &true, &(d.file_type == gimli::DwarfFileType::Main), &input);
+            ceq(ctx, "Dwarf::load.sup", &true, &d.sup().is_none(), &input);
             // ---------------- load_sup
             let mut d = d;
             if d.load_sup(|id| sup.load_slice(id, le)).is_err() {
@@ -421,11 +421,11 @@ pub fn plumb_stream(ctx: &mut Ctx) {
             check_dwarf_fields(ctx, "load_sup.main", &d, &|id| main.get(id), &input);
             match d.sup() {
                 Some(s) => check_dwarf_fields(ctx, "load_sup.sup", s, &|id| sup.get(id), &input),
-                None => ctx.fail("load_sup.none", "load_sup did not set the supplementary file", &input),
+                None => cfail(ctx, "load_sup.none", "load_sup did not set the supplementary file", &input),
             }
             // a supplementary buffer is reported as supplementary
             let w = sup.get(SectionId::DebugStr);
-            ctx.check_eq("load_sup.lookup_offset_id", &Some((true, SectionId::DebugStr, 1usize)), &d.lookup_offset_id(gimli::ReaderOffsetId(w.as_ptr() as u64 + 1)), &input);
+            ceq(ctx, "load_sup.lookup_offset_id", &Some((true, SectionId::DebugStr, 1usize)), &d.lookup_offset_id(gimli::ReaderOffsetId(w.as_ptr() as u64 + 1)), &input);
             // ---------------- make_dwo
             let mut o: gimli::Dwarf<Rd> = match gimli::Dwarf::load(|id| dwo.load_slice(id, le)) {
                 Ok(d) => d,
@@ -444,9 +444,9 @@ pub fn plumb_stream(ctx: &mut Ctx) {
                 },
                 &input,
             );
-            ctx.check_eq("make_dwo.file_type", &true, &(o.file_type == gimli::DwarfFileType::Dwo), &input);
+            ceq(ctx, "make_dwo.file_type", &true, &(o.file_type == gimli::DwarfFileType::Dwo), &input);
             let sup_str = o.sup().map(|s| s.debug_str.reader().slice().to_vec());
-            ctx.check_eq("make_dwo.sup", &Some(sup.vec(SectionId::DebugStr)), &sup_str, &input);
+            ceq(ctx, "make_dwo.sup", &Some(sup.vec(SectionId::DebugStr)), &sup_str, &input);
             // the parent is untouched
             check_dwarf_fields(ctx, "make_dwo.parent", &d, &|id| main.get(id), &input);
 
@@ -472,21 +472,21 @@ pub fn plumb_stream(ctx: &mut Ctx) {
                 for (name, id, got) in dwarf_fields(&b) {
                     let w = main.vec(id);
                     if w != got {
-                        ctx.check_eq(&format!("Dwarf::borrow.{name}"), &String::from_utf8_lossy(&w).to_string(), &String::from_utf8_lossy(&got).to_string(), &input);
+                        ceq(ctx, &format!("Dwarf::borrow.{name}"), &String::from_utf8_lossy(&w).to_string(), &String::from_utf8_lossy(&got).to_string(), &input);
                     }
                 }
                 if let Some(s) = b.sup() {
                     for (name, id, got) in dwarf_fields(s) {
                         let w = sup.vec(id);
                         if w != got {
-                            ctx.check_eq(&format!("Dwarf::borrow.sup.{name}"), &String::from_utf8_lossy(&w).to_string(), &String::from_utf8_lossy(&got).to_string(), &input);
+                            ceq(ctx, &format!("Dwarf::borrow.sup.{name}"), &String::from_utf8_lossy(&w).to_string(), &String::from_utf8_lossy(&got).to_string(), &input);
                         }
                     }
                 } else {
-                    ctx.fail("Dwarf::borrow.sup", "borrow dropped the supplementary file", &input);
+                    cfail(ctx, "Dwarf::borrow.sup", "borrow dropped the supplementary file", &input);
                 }
                 let want = format!("{:?}", gimli::LocationLists::new(gimli::DebugLoc::from(EndianSlice::new(main.get(SectionId::DebugLoc), endian(le))), gimli::DebugLocLists::from(EndianSlice::new(main.get(SectionId::DebugLocLists), endian(le)))));
-                ctx.check_eq("Dwarf::borrow.locations", &want, &format!("{:?}", b.locations), &input);
+                ceq(ctx, "Dwarf::borrow.locations", &want, &format!("{:?}", b.locations), &input);
             }
             let secs: gimli::DwarfSections<Vec<u8>> = match gimli::DwarfSections::load(|id| main.load_vec(id)) {
                 Ok(d) => d,
@@ -500,7 +500,7 @@ pub fn plumb_stream(ctx: &mut Ctx) {
             for (name, id, got) in dwarf_fields(&b) {
                 let w = main.vec(id);
                 if w != got {
-                    ctx.check_eq(&format!("DwarfSections::borrow.{name}"), &String::from_utf8_lossy(&w).to_string(), &String::from_utf8_lossy(&got).to_string(), &input);
+                    ceq(ctx, &format!("DwarfSections::borrow.{name}"), &String::from_utf8_lossy(&w).to_string(), &String::from_utf8_lossy(&got).to_string(), &input);
                 }
             }
             // locations of the borrowed Dwarf: same probes, against the *owned* buffers'
@@ -509,11 +509,11 @@ pub fn plumb_stream(ctx: &mut Ctx) {
                 let enc = gimli::Encoding { format: gimli::Format::Dwarf32, version, address_size: 4 };
                 let len = main.get(sid).len();
                 let ok = b.locations.raw_locations(gimli::LocationListsOffset(len), enc).is_ok() && b.locations.raw_locations(gimli::LocationListsOffset(len + 1), enc).is_err();
-                ctx.check_eq(&format!("DwarfSections::borrow.locations.{}", sid.name()), &true, &ok, &input);
+                ceq(ctx, &format!("DwarfSections::borrow.locations.{}", sid.name()), &true, &ok, &input);
             }
             let want = format!("{:?}", gimli::LocationLists::new(gimli::DebugLoc::from(EndianSlice::new(main.get(SectionId::DebugLoc), endian(le))), gimli::DebugLocLists::from(EndianSlice::new(main.get(SectionId::DebugLocLists), endian(le)))));
-            ctx.check_eq("DwarfSections::borrow.locations", &want, &format!("{:?}", b.locations), &input);
-            ctx.check_eq("DwarfSections::borrow.sup", &true, &b.sup().is_none(), &input);
+            ceq(ctx, "DwarfSections::borrow.locations", &want, &format!("{:?}", b.locations), &input);
+            ceq(ctx, "DwarfSections::borrow.sup", &true, &b.sup().is_none(), &input);
             let sup_secs: gimli::DwarfSections<Vec<u8>> = match gimli::DwarfSections::load(|id| sup.load_vec(id)) {
                 Ok(d) => d,
                 Err(_) => return,
@@ -524,7 +524,7 @@ pub fn plumb_stream(ctx: &mut Ctx) {
             for (name, id, got) in dwarf_fields(&b2) {
                 let w = main.vec(id);
                 if w != got {
-                    ctx.check_eq(&format!("borrow_with_sup.main.{name}"), &String::from_utf8_lossy(&w).to_string(), &String::from_utf8_lossy(&got).to_string(), &input);
+                    ceq(ctx, &format!("borrow_with_sup.main.{name}"), &String::from_utf8_lossy(&w).to_string(), &String::from_utf8_lossy(&got).to_string(), &input);
                 }
             }
             match b2.sup() {
@@ -532,14 +532,14 @@ pub fn plumb_stream(ctx: &mut Ctx) {
                     for (name, id, got) in dwarf_fields(s) {
                         let w = sup.vec(id);
                         if w != got {
-                            ctx.check_eq(&format!("borrow_with_sup.sup.{name}"), &String::from_utf8_lossy(&w).to_string(), &String::from_utf8_lossy(&got).to_string(), &input);
+                            ceq(ctx, &format!("borrow_with_sup.sup.{name}"), &String::from_utf8_lossy(&w).to_string(), &String::from_utf8_lossy(&got).to_string(), &input);
                         }
                     }
                 }
-                None => ctx.fail("borrow_with_sup.none", "borrow_with_sup did not set the supplementary file", &input),
+                None => cfail(ctx, "borrow_with_sup.none", "borrow_with_sup did not set the supplementary file", &input),
             }
             let b3 = secs.borrow_with_sup(None, |v| EndianSlice::new(&v[..], endian(le)));
-            ctx.check_eq("borrow_with_sup(None).sup", &true, &b3.sup().is_none(), &input);
+            ceq(ctx, "borrow_with_sup(None).sup", &true, &b3.sup().is_none(), &input);
 
             // ---------------- packages (index version 2 and 5 so that all ten kinds appear)
             for version in [2u16, 5] {
@@ -558,7 +558,7 @@ pub fn plumb_stream(ctx: &mut Ctx) {
                         asked_ok(ctx, "DwarfPackage::load", &dwpm, &PKG_IDS, &input);
                         check_package(ctx, "DwarfPackage::load", &p, &dwpm, &d, &main, &sup, &(cu_id, cu_m.clone()), &(tu_id, tu_m.clone()), &input);
                     }
-                    Err(e) => ctx.fail("DwarfPackage::load.err", &format!("{e:?}"), &input),
+                    Err(e) => cfail(ctx, "DwarfPackage::load.err", &format!("{e:?}"), &input),
                 }
                 match gimli::DwarfPackageSections::<Vec<u8>>::load(|id| dwpm.load_vec(id)) {
                     Ok(ps) => {
@@ -569,7 +569,7 @@ pub fn plumb_stream(ctx: &mut Ctx) {
                                 let want = format!("{:?}", gimli::$ty::from(dwpm.vec(SectionId::$id)));
                                 let got = format!("{:?}", ps.$field);
                                 if want != got {
-                                    ctx.check_eq(&format!("DwarfPackageSections::load.{}", stringify!($field)), &want, &got, &input);
+                                    ceq(ctx, &format!("DwarfPackageSections::load.{}", stringify!($field)), &want, &got, &input);
                                 }
                             };
                         }
@@ -605,11 +605,11 @@ pub fn plumb_stream(ctx: &mut Ctx) {
                                 for (name, id, got) in fields {
                                     let w = dwpm.vec(id);
                                     if w != got {
-                                        ctx.check_eq(&format!("DwarfPackageSections::borrow.{name}"), &String::from_utf8_lossy(&w).to_string(), &String::from_utf8_lossy(&got).to_string(), &input);
+                                        ceq(ctx, &format!("DwarfPackageSections::borrow.{name}"), &String::from_utf8_lossy(&w).to_string(), &String::from_utf8_lossy(&got).to_string(), &input);
                                     }
                                 }
-                                ctx.check_eq("DwarfPackageSections::borrow.cu_index", &(Some(1), None), &(p.cu_index.find(cu_id), p.cu_index.find(tu_id)), &input);
-                                ctx.check_eq("DwarfPackageSections::borrow.tu_index", &(Some(1), None), &(p.tu_index.find(tu_id), p.tu_index.find(cu_id)), &input);
+                                ceq(ctx, "DwarfPackageSections::borrow.cu_index", &(Some(1), None), &(p.cu_index.find(cu_id), p.cu_index.find(tu_id)), &input);
+                                ceq(ctx, "DwarfPackageSections::borrow.tu_index", &(Some(1), None), &(p.tu_index.find(tu_id), p.tu_index.find(cu_id)), &input);
                                 // unit sections of the borrowed package: contents of the windows
                                 if let Ok(Some(u)) = p.find_cu(gimli::DwoId(cu_id), &d) {
                                     for (k, o, s) in cu_m.contributions(1).unwrap_or_default() {
@@ -618,18 +618,18 @@ pub fn plumb_stream(ctx: &mut Ctx) {
                                         let got = dwarf_fields(&u).into_iter().find(|f| f.1 == sid).map(|f| f.2);
                                         if let Some(got) = got {
                                             if want != got {
-                                                ctx.check_eq(&format!("DwarfPackageSections::borrow.find_cu.{}", sid.name()), &String::from_utf8_lossy(&want).to_string(), &String::from_utf8_lossy(&got).to_string(), &input);
+                                                ceq(ctx, &format!("DwarfPackageSections::borrow.find_cu.{}", sid.name()), &String::from_utf8_lossy(&want).to_string(), &String::from_utf8_lossy(&got).to_string(), &input);
                                             }
                                         }
                                     }
                                 } else {
-                                    ctx.fail("DwarfPackageSections::borrow.find_cu", "marker unit not found", &input);
+                                    cfail(ctx, "DwarfPackageSections::borrow.find_cu", "marker unit not found", &input);
                                 }
                             }
-                            Err(e) => ctx.fail("DwarfPackageSections::borrow.err", &format!("{e:?}"), &input),
+                            Err(e) => cfail(ctx, "DwarfPackageSections::borrow.err", &format!("{e:?}"), &input),
                         }
                     }
-                    Err(e) => ctx.fail("DwarfPackageSections::load.err", &format!("{e:?}"), &input),
+                    Err(e) => cfail(ctx, "DwarfPackageSections::load.err", &format!("{e:?}"), &input),
                 }
             }
             // ---------------- Section::load of every section type asks for its own id
@@ -640,12 +640,12 @@ pub fn plumb_stream(ctx: &mut Ctx) {
                         asked.push(id);
                         Ok(EndianSlice::new(main.get(id), endian(le)))
                     });
-                    ctx.check_eq(&format!("Section::load.{}.id", stringify!($ty)), &vec![SectionId::$id], &asked, &input);
+                    ceq(ctx, &format!("Section::load.{}.id", stringify!($ty)), &vec![SectionId::$id], &asked, &input);
                     if let Ok(s) = r {
-                        ctx.check_eq(&format!("Section::load.{}.data", stringify!($ty)), &main.vec(SectionId::$id), &s.reader().slice().to_vec(), &input);
+                        ceq(ctx, &format!("Section::load.{}.data", stringify!($ty)), &main.vec(SectionId::$id), &s.reader().slice().to_vec(), &input);
                     }
-                    ctx.check_eq(&format!("Section::id.{}", stringify!($ty)), &SectionId::$id, &<gimli::$ty<Rd> as Section<Rd>>::id(), &input);
-                    ctx.check_eq(&format!("Section::section_name.{}", stringify!($ty)), &SectionId::$id.name(), &<gimli::$ty<Rd> as Section<Rd>>::section_name(), &input);
+                    ceq(ctx, &format!("Section::id.{}", stringify!($ty)), &SectionId::$id, &<gimli::$ty<Rd> as Section<Rd>>::id(), &input);
+                    ceq(ctx, &format!("Section::section_name.{}", stringify!($ty)), &SectionId::$id.name(), &<gimli::$ty<Rd> as Section<Rd>>::section_name(), &input);
                 };
             }
             own_id!(DebugAbbrev, DebugAbbrev);
